@@ -7,7 +7,7 @@ CONSTANTS
   Programs <- CollPrograms
   SubKinds <- Kinds
   InitStores <- CollStores
-  PublishAfterUnlock = TRUE
+  PublishAfterUnlock = FALSE
   CreatedRevalidated = TRUE
 INVARIANT EmitSched
 CHECK_DEADLOCK FALSE
